@@ -1,3 +1,4 @@
+mod bigworld;
 mod engine;
 mod fuzzdec;
 mod hist;
@@ -15,14 +16,19 @@ mod zoo;
 
 use engine::{Property, Tier};
 
+fn with_sub(mut p: Property, s: engine::SubCheck) -> Property {
+    p.subs.push(s);
+    p
+}
+
 fn registry() -> Vec<Property> {
     vec![
-        props_hist::c01::property(),
-        props_hist::c02::property(),
+        with_sub(props_hist::c01::property(), bigworld::sub()),
+        with_sub(props_hist::c02::property(), bigworld::sub()),
         props_hist::c03::property(),
         props_hist::c05::property(),
         props_hist::c09::property(),
-        props_hist::c17::property(),
+        with_sub(props_hist::c17::property(), bigworld::sub()),
         props_seq::c04(),
         props_join::c06(),
         props_join::c07(),
